@@ -504,6 +504,15 @@ func runScanProfile(c *Ctx, p scanProfile) {
 		cli = append(cli, genCase(rng, fmt.Sprintf("r%d", i+1), gp))
 	}
 	cli = append(cli, p.Extra...)
+	if p.CrossFormat {
+		// C08: the name style decides what is cited; a third of the repositories get it from sizer.names in their
+		// configuration instead of from the --names option (same report expected)
+		for i := range cli {
+			if i%3 == 1 && cli[i].Gitconfig == "" {
+				cli[i].StyleViaConfig = true
+			}
+		}
+	}
 	runs := env.parallelCLI(cli, cliOpt{Progress: p.Progress, Formats: p.CrossFormat}, 16)
 	if p.CrossFormat {
 		for _, r := range runs {
